@@ -80,6 +80,7 @@ class Stats:
         self.violations: List[dict] = []
         self.sets: Dict[str, set] = {}
         self.max_samples = 6
+        self.sig_counts: Dict[str, int] = {}
         self.max_violations = 400
 
     def count(self, key: str, n: int = 1):
@@ -99,7 +100,10 @@ class Stats:
 
     def violation(self, v: dict):
         self.counters["violations_raw"] += 1
-        if len(self.violations) < self.max_violations:
+        key = json.dumps(jsonable(v.get("signature", {})), sort_keys=True)
+        n = self.sig_counts.get(key, 0)
+        self.sig_counts[key] = n + 1
+        if n < 3 and len(self.violations) < self.max_violations:
             self.violations.append(v)
 
     def merge(self, other: "Stats"):
@@ -111,6 +115,8 @@ class Stats:
             if len(self.samples) < 12:
                 self.samples.append(s)
         self.violations.extend(other.violations)
+        for k, n in other.sig_counts.items():
+            self.sig_counts[k] = self.sig_counts.get(k, 0) + n
 
 
 # ------------------------------------------------------------------------------- pool
@@ -175,6 +181,7 @@ def finish(
     """classify violations against known findings, write evidence, print lines, return exit code"""
     findings = load_findings()
     known_hits: Dict[str, int] = Counter()
+    counted_sigs: set = set()
     new: List[dict] = []
     harness_errors = [v for v in st.violations if v.get("harness_error")]
     for v in st.violations:
@@ -182,7 +189,11 @@ def finish(
             continue
         f = match_finding(prop, v.get("signature", {}), findings)
         if f is not None:
-            known_hits[f["what"]] += 1
+            known_hits[f["what"]] += 0
+            sigkey = json.dumps(jsonable(v.get("signature", {})), sort_keys=True)
+            if sigkey not in counted_sigs:
+                counted_sigs.add(sigkey)
+                known_hits[f["what"]] += st.sig_counts.get(sigkey, 1)
         else:
             new.append(v)
     # group new violations by signature
@@ -194,10 +205,11 @@ def finish(
         lines.append(f"KNOWN-FINDING: property={prop} {what} [{n} cases]")
     replay_paths = []
     for sig, vs in sorted(groups.items()):
-        path = write_replay(prop, dict(vs[0], property=prop, tier=tier, similar_cases=len(vs)))
+        ncases = st.sig_counts.get(sig, len(vs))
+        path = write_replay(prop, dict(vs[0], property=prop, tier=tier, similar_cases=ncases))
         replay_paths.append(path)
         lines.append(f"VIOLATION property={prop} replay={path}")
-        lines.append(f"  signature={sig} cases={len(vs)} what={vs[0].get('what')}")
+        lines.append(f"  signature={sig} cases={ncases} what={vs[0].get('what')}")
     for v in harness_errors[:3]:
         path = write_replay(prop, dict(v, property=prop, tier=tier))
         lines.append(f"HARNESS-ERROR property={prop} replay={path}")
